@@ -31,6 +31,19 @@ macro "py_arith" : tactic =>
       pyMaximum, pyMinimum, Nat.cast_ofNat, Nat.cast_one, Nat.cast_zero])
     all_goals (first | rfl | (ring_nf; done) | (norm_num; done) | (norm_num; ring_nf; done) | (congr 1; ring_nf; done))))
 
+/-- leaf of a case split on comparisons: propositional reasoning after normalising the arithmetic atoms -/
+macro "py_logic" : tactic =>
+  `(tactic| first
+    | rfl
+    | (exfalso; linarith)
+    | (exfalso; tauto)
+    | (simp_all; done)
+    | (ring_nf at *; tauto)
+    | (ring_nf at *; simp_all; done)
+    | (exfalso; simp_all; linarith)
+    | (simp only [abs_sub_comm] at *; tauto)
+    | (simp_all [abs_sub_comm]; done))
+
 theorem py_radians (d : ℝ) : pyRadians d = radians d := rfl
 
 theorem ofInt_real' (i : ℤ) : (ofInt i : ℝ) = (i : ℝ) := by
